@@ -85,8 +85,10 @@ impl MergedServerSelection {
     pub fn reachable_variables(&self) -> BTreeSet<VariableNameWrapper> {
         match self {
             MergedServerSelection::ScalarField(field) => get_variables(&field.arguments).collect(),
-            MergedServerSelection::ClientObjectSelectable(field)
-            | MergedServerSelection::LinkedField(field) => get_variables(&field.arguments)
+            // A client pointer is not part of the operation (neither the query text nor the
+            // normalization AST print it), so the variables below it are not used by the operation.
+            MergedServerSelection::ClientObjectSelectable(_) => BTreeSet::new(),
+            MergedServerSelection::LinkedField(field) => get_variables(&field.arguments)
                 .chain(
                     field
                         .selection_map
